@@ -15,6 +15,7 @@ import os
 
 import vlib
 import pressure
+import c01_gen
 
 FINISH = dict(level="proof",
               rule="synthetic cases: random port models (1-6 ports, multi-character names, string and list port collections, "
@@ -228,6 +229,7 @@ def run(ctx):
     ctx.assumptions += ["hidden_loads is false (every shipped model); port collections contain no duplicate port"]
     ctx.ensure_static()
     ctx.compile_theorems("Props/C01.v")
+    c01_gen.run(ctx)      # T: average_port_pressure / get_throughput_sum regenerated from the source = the hand model (PropsGen/C01gen.v)
     num_prelude_shard(ctx)
     co = corpus_cases(ctx)
     if co:
